@@ -86,7 +86,7 @@ class BoundGen:
         """absent | () | (P) | (..) | (P, ..) | (T) | (Vec<T>, P, ..)"""
         if self.r.random() < self.p_absent:
             return None
-        k = self.r.randrange(8)
+        k = self.r.randrange(10)
         self.marker += 1
         p = 'P%d' % self.marker
         pred_s = sx.b_pred(sx.wty(T, [sx.tb_trait([p])]))
@@ -101,6 +101,10 @@ class BoundGen:
             return Level([pred_s, sx.B_DOTS], [], [pred_f], True, 'pred+dots')
         if k == 4:
             return Level([sx.b_ty(T)], ['T'], [], False, 'type')
+        if k == 8:      # a bounded type that mentions no type / const parameter of the item: kept like any other entry
+            return Level([sx.b_ty(sx.tgen('Vec', sx.tid('u8')))], ['Vec < u8 >'], [], False, 'type-noparam')
+        if k == 9:      # ... or only a lifetime parameter
+            return Level([sx.b_ty(sx.tref(sx.tid('str'), lt='a')), sx.B_DOTS, pred_s], ["& ' a str"], [pred_f], True, 'lifetime-type+dots+pred')
         if k == 6:      # `..` may stand anywhere in the list
             return Level([sx.B_DOTS, pred_s], [], [pred_f], True, 'dots+pred')
         if k == 7:
@@ -234,8 +238,10 @@ class BoundGen:
         else:
             it = sx.struct('X', variants_s[0][1], attrs=tattrs, gen=gen)
         items = [(tr, (self.barg(this_lv), False) if this_lv is not None or self.r.random() < 0.3 else None)]
+        second = None
         if self.r.random() < 0.3:
-            items.append(('Clone' if tr != 'Clone' else 'Copy', None))   # a co-derived trait shares bound(..)
+            second = 'Clone' if tr != 'Clone' else 'Copy'
+            items.append((second, None))   # a co-derived trait shares bound(..)
         if mode == 'attr':
             req = sx.inv_attr(sx.dx(items, bnd=self.barg(common_lv)), it)
         else:
@@ -243,7 +249,7 @@ class BoundGen:
             it = kw + sx.a_derive_ex(sx.dx(items, bnd=self.barg(common_lv))) + ' ' + it[len(kw):]
             req = sx.inv_derive(it)
         meta = dict(features=tuple(sorted(feats)), trait=tr, kind=kind, enum=is_enum, top=top, plan=plan,
-                    default_variant=default_variant, type_value=type_value, nvar=nvar)
+                    default_variant=default_variant, type_value=type_value, nvar=nvar, second=second, common=common_lv)
         return req, meta
 
 
@@ -296,6 +302,18 @@ def expected_where(meta):
                 used = False
             if cf and used and f['mentions']:
                 ts.append(f['ty'])
+    return ts, ps
+
+
+def expected_where_second(meta):
+    """the where-clause of the co-derived Clone / Copy: it shares only the list-level `bound(..)`; the helper attributes and
+    the nested `#[derive_ex(Trait..)]` arguments of the other trait say nothing about it, and every field is used"""
+    ts, ps, c = resolve([meta['common']], True)
+    if c:
+        for v in meta['plan']:
+            for f in v['fields']:
+                if f['mentions']:
+                    ts.append(f['ty'])
     return ts, ps
 
 
